@@ -142,38 +142,70 @@ func checkP1(p *Prog, r *Result, F *FuncNode) {
 		rng   *ast.RangeStmt
 		deriv string
 	}
+	// mapObj: the object of F's scope that the ranged expression of a site denotes (for a site inside a helper that F
+	// calls, the argument bound to the helper's parameter); viaFn: the function of F's literal tree the site belongs to
+	mapObj := map[*ast.RangeStmt]types.Object{}
+	viaFn := map[*ast.CallExpr]*FuncNode{}
 	find := func(name string) []site {
 		var out []site
-		ast.Inspect(F.Body, func(x ast.Node) bool {
-			c, ok := x.(*ast.CallExpr)
-			if !ok {
-				return true
-			}
-			fn := p.enclosing(F.Pkg, c.Pos())
-			if f := fn.Callee(c); f == nil || objName(f) != name {
-				return true
-			}
-			s := site{fn: fn, call: c}
-			if l, ok := enclosingLoop(fn, c.Pos()).(*ast.RangeStmt); ok {
-				s.rng = l
-				// derivation of the processing argument from the range key
-				arg := c.Args[1]
-				if id, ok := unparen(arg).(*ast.Ident); ok {
-					obj := fn.Pkg.TypesInfo.ObjectOf(id)
-					ast.Inspect(l.Body, func(y ast.Node) bool {
-						if as, ok := y.(*ast.AssignStmt); ok && len(as.Lhs) == 1 && fn.objOf(as.Lhs[0]) == obj {
-							arg = as.Rhs[0]
+		var scan func(body ast.Node, args map[types.Object]ast.Expr, via *FuncNode, depth int)
+		scan = func(body ast.Node, args map[types.Object]ast.Expr, via *FuncNode, depth int) {
+			ast.Inspect(body, func(x ast.Node) bool {
+				c, ok := x.(*ast.CallExpr)
+				if !ok {
+					return true
+				}
+				fn := p.enclosing(F.Pkg, c.Pos())
+				if fn == nil {
+					return true
+				}
+				if f := fn.Callee(c); f != nil && objName(f) != name && depth == 0 {
+					// a helper of the package called from F (e.g. from its deferred literal)
+					if H := p.ByObj[f]; H != nil && H.Body != nil && H.Pkg == F.Pkg && topOf(H) != topOf(F) {
+						hargs := map[types.Object]ast.Expr{}
+						for i, a := range c.Args {
+							if po := H.paramObj(i); po != nil {
+								hargs[po] = a
+							}
 						}
-						return true
-					})
+						nb := len(out)
+						scan(H.Body, hargs, fn, depth+1)
+						for _, s2 := range out[nb:] {
+							viaFn[s2.call] = fn
+						}
+					}
 				}
-				if k := fn.objOf(l.Key); k != nil {
-					s.deriv = replaceIdent(fn, arg, k, "$key")
+				if f := fn.Callee(c); f == nil || objName(f) != name {
+					return true
 				}
-			}
-			out = append(out, s)
-			return true
-		})
+				s := site{fn: fn, call: c}
+				if l, ok := enclosingLoop(fn, c.Pos()).(*ast.RangeStmt); ok {
+					s.rng = l
+					// derivation of the processing argument from the range key
+					arg := c.Args[1]
+					if id, ok := unparen(arg).(*ast.Ident); ok {
+						obj := fn.Pkg.TypesInfo.ObjectOf(id)
+						ast.Inspect(l.Body, func(y ast.Node) bool {
+							if as, ok := y.(*ast.AssignStmt); ok && len(as.Lhs) == 1 && fn.objOf(as.Lhs[0]) == obj {
+								arg = as.Rhs[0]
+							}
+							return true
+						})
+					}
+					if k := fn.objOf(l.Key); k != nil {
+						s.deriv = replaceIdent(fn, arg, k, "$key")
+					}
+					mo := fn.objOf(l.X)
+					if a, ok := args[mo]; ok && via != nil {
+						mo = via.objOf(a)
+					}
+					mapObj[l] = mo
+				}
+				out = append(out, s)
+				return true
+			})
+		}
+		scan(F.Body, nil, nil, 0)
 		return out
 	}
 	cs, ds := find("store.Store.CreateProcessing"), find("store.Store.DeleteProcessing")
@@ -192,7 +224,7 @@ func checkP1(p *Prog, r *Result, F *FuncNode) {
 		if d.rng == nil {
 			continue
 		}
-		if c.fn.objOf(c.rng.X) != d.fn.objOf(d.rng.X) || c.fn.objOf(c.rng.X) == nil {
+		if mapObj[c.rng] != mapObj[d.rng] || mapObj[c.rng] == nil {
 			r.bad("P1", key, p.pos(d.call), fmt.Sprintf("markers are created for the keys of %s but deleted for the keys of %s: when the two differ (creation fails part-way, or the deleted map is assigned later) markers are left behind", exprStr(c.rng.X), exprStr(d.rng.X)))
 			return
 		}
@@ -202,6 +234,9 @@ func checkP1(p *Prog, r *Result, F *FuncNode) {
 		}
 		// the deletion sits in a deferred literal registered at top level of the producer goroutine, before the Txn
 		dl := d.fn
+		if v := viaFn[d.call]; v != nil {
+			dl = v
+		}
 		for dl != nil && g != nil && g.roles[dl].kind != "defer" {
 			dl = dl.Parent
 		}
